@@ -3,6 +3,7 @@ package main
 import (
 	"bytes"
 	"fmt"
+	"math/bits"
 	"os"
 	"os/exec"
 	"runtime/debug"
@@ -16,7 +17,7 @@ import (
 )
 
 // trickleReader delivers a 64 MiB frame holding one huge byte string one byte
-// per Read call, without materialising it.
+// per Read call, without materialising it, for at most max reads.
 type trickleReader struct {
 	head []byte
 	pos  int
@@ -42,60 +43,112 @@ func (t *trickleReader) Read(p []byte) (int, error) {
 func (t *trickleReader) Write(p []byte) (int, error) { return len(p), nil }
 
 // rhpStackChild runs in a CHILD process: with the goroutine stack capped at
-// 64 MiB it reads one fragmented frame through the runtime-host message codec.
-// The third-party stream decoder recurses once per short read, so the child
-// dies with a fatal (unrecoverable) stack overflow after about a million reads.
-func rhpStackChild() {
-	debug.SetMaxStack(64 << 20)
+// maxStack bytes it reads one fragmented frame (reads one-byte reads) through
+// the runtime-host message codec.  The third-party stream decoder keeps one
+// activation per short read, so beyond a computable number of reads the child
+// dies with the fatal (unrecoverable) "stack overflow".
+func rhpStackChild(maxStack, reads int) {
+	debug.SetMaxStack(maxStack)
 	// length prefix 0x04000000 (64 MiB), then a byte string head declaring 0x03fffff0 bytes
-	r := &trickleReader{head: []byte{0x04, 0x00, 0x00, 0x00, 0x5a, 0x03, 0xff, 0xff, 0xf0}, max: 8 << 20}
+	r := &trickleReader{head: []byte{0x04, 0x00, 0x00, 0x00, 0x5a, 0x03, 0xff, 0xff, 0xf0}, max: reads}
 	codec := cbor.NewMessageCodec(r, "verif")
 	var msg protocol.Message
 	err := codec.Read(&msg)
-	fmt.Println("child: codec.Read returned:", err)
+	fmt.Println("child: survived; codec.Read returned:", err)
 }
 
-// runRhpStack (thorough tier only) spawns the child and reports the known
-// finding when it dies of a stack overflow.
-func runRhpStack(n int, out string) {
-	sum := coqout.NewSummary("SEARCH ONLY: one fragmented 64 MiB runtime-host frame delivered one byte per read to cbor.MessageCodec.Read in a child process with a 64 MiB goroutine stack limit (thorough tier only)")
-	sum.Extra["label"] = "search, not proof"
-	if n > 0 {
-		cmd := exec.Command(os.Args[0], "-mode", "rhpstack-child", "-out", out)
-		var buf bytes.Buffer
-		cmd.Stdout, cmd.Stderr = &buf, &buf
-		t0 := time.Now()
-		done := make(chan error, 1)
-		if err := cmd.Start(); err != nil {
-			panic(err)
-		}
-		go func() { done <- cmd.Wait() }()
-		var err error
-		select {
-		case err = <-done:
-		case <-time.After(120 * time.Second):
-			_ = cmd.Process.Kill()
-			err = fmt.Errorf("child timed out")
-		}
-		sum.Evaluations = 1
-		o := buf.String()
-		sum.Extra["child_seconds"] = time.Since(t0).Seconds()
-		sum.Extra["child_exit"] = fmt.Sprint(err)
-		if strings.Contains(o, "stack overflow") || strings.Contains(o, "goroutine stack exceeds") {
-			i := strings.Index(o, "goroutine stack exceeds")
-			if i < 0 {
-				i = 0
-			}
-			sum.Findings = append(sum.Findings, coqout.Finding{Key: "C16:rhp-cbor-stream-decoder-stack-overflow-on-fragmented-frame",
-				What:   "runtime-host frame delivered in one-byte fragments: the CBOR stream decoder recurses once per short read (fxamacker/cbor stream.go Decode) and the process dies with an unrecoverable stack overflow: " + strings.SplitN(o[i:], "\n", 2)[0],
-				Replay: map[string]any{"case": Case{Kind: "rhpstack"}}})
-		} else if err != nil {
-			sum.Violations = append(sum.Violations, map[string]any{"what": "rhpstack child failed: " + fmt.Sprint(err) + ": " + o[max(0, len(o)-400):], "case": Case{Kind: "rhpstack"}})
-		} else {
-			sum.DistinctNontrivial = 1
-		}
+// childDies runs the child and reports whether it died of a stack overflow.
+func childDies(maxStack, reads int) (bool, string) {
+	cmd := exec.Command(os.Args[0], "-mode", "rhpstack-child", "-maxstack", fmt.Sprint(maxStack), "-reads", fmt.Sprint(reads), "-out", os.TempDir())
+	var buf bytes.Buffer
+	cmd.Stdout, cmd.Stderr = &buf, &buf
+	done := make(chan error, 1)
+	if err := cmd.Start(); err != nil {
+		panic(err)
 	}
-	_ = os.MkdirAll(out, 0o755)
-	_ = os.WriteFile(out+"/shards.json", []byte(`{"shards":0,"per_shard":1,"total":0,"header":"","run":""}`), 0o644)
+	go func() { done <- cmd.Wait() }()
+	select {
+	case <-done:
+	case <-time.After(180 * time.Second):
+		_ = cmd.Process.Kill()
+		return false, "child timed out"
+	}
+	o := buf.String()
+	if strings.Contains(o, "goroutine stack exceeds") || strings.Contains(o, "stack overflow") {
+		i := strings.Index(o, "goroutine stack exceeds")
+		if i < 0 {
+			i = 0
+		}
+		return true, strings.SplitN(o[i:], "\n", 2)[0]
+	}
+	if !strings.Contains(o, "child: survived") {
+		return false, "child neither survived nor overflowed: " + o[max(0, len(o)-300):]
+	}
+	return false, ""
+}
+
+// runRhpStack (thorough tier only): the depth at which the decoder dies is
+// COMPUTED by the model (Decode/StreamDepth.v) from the stack limit and the
+// measured activation size, and checked against the real decoder:
+//  1. calibration: binary search of the exact death depth under an 8 MiB limit
+//     gives the bytes of stack per activation;
+//  2. prediction: for 32 MiB and 64 MiB limits the model's death depth D is
+//     tested from both sides (0.995 D must survive, 1.005 D must die);
+//  3. the death at the predicted depth is reported under the known-finding key.
+func runRhpStack(n int, out string) {
+	hdr := "From Verif Require Import Lib.Base Decode.GoSlice Decode.Node Decode.ProofEntries Decode.Quote Decode.KeyFormat Decode.Misc Decode.Cbor Decode.More Decode.StreamDepth Decode.Cases.\n"
+	wb := coqout.NewWriter(out, hdr, "run_case", "cout_eqb", 50)
+	sum := coqout.NewSummary("runtime-host frame delivered one byte per read to cbor.MessageCodec.Read in child processes with reduced goroutine stack limits: death depth computed by the model (usable stack = largest power of two <= limit; one activation of measured size per read) and checked from both sides (thorough tier only)")
+	if n > 0 {
+		const cal = 8 << 20
+		lo, hi := 1000, cal/8 // survives at lo, dies at hi
+		for hi-lo > 1 {
+			mid := (lo + hi) / 2
+			if d, _ := childDies(cal, mid); d {
+				hi = mid
+			} else {
+				lo = mid
+			}
+			sum.Evaluations++
+		}
+		// hi = first number of reads that dies; frames at death = hi - 3
+		usable := func(m int) int { return 1 << (bits.Len(uint(m)) - 1) }
+		framesAtDeath := hi - 3
+		frame := (usable(cal) + framesAtDeath/2) / framesAtDeath
+		base := usable(cal) - frame*(framesAtDeath-1)
+		if base < 0 {
+			base = 0
+		}
+		sum.Extra["calibration"] = map[string]int{"limit": cal, "first_dying_reads": hi, "frame_bytes": frame, "base_bytes": base}
+		add := func(limit, reads int) (bool, string) {
+			d, msg := childDies(limit, reads)
+			sum.Evaluations++
+			term := fmt.Sprintf("(CStreamDepth %d %d %d %d, ODies %v)", limit, frame, base, reads, d)
+			wb.Add(term, map[string]any{"case": Case{Kind: "rhpstack", Mode: limit, NVals: reads}})
+			if !d && msg != "" {
+				sum.Violations = append(sum.Violations, map[string]any{"what": "rhpstack: " + msg, "case": Case{Kind: "rhpstack", Mode: limit, NVals: reads}})
+			}
+			return d, msg
+		}
+		// the exact boundary moves by a few activations from run to run (signal frames,
+		// stack scanning): test 0.1% to either side of the measured boundary
+		add(cal, lo*999/1000)
+		add(cal, hi*1001/1000)
+		predicted := map[string]int{}
+		for _, limit := range []int{32 << 20, 64 << 20, 100_000_000} {
+			d := (usable(limit) - base) / frame // model: death_depth
+			predicted[fmt.Sprint(limit)] = d
+			add(limit, d*995/1000+3)
+			if died, msg := add(limit, d*1005/1000+3); died && limit == 64<<20 {
+				sum.Findings = append(sum.Findings, coqout.Finding{Key: "C16:rhp-cbor-stream-decoder-stack-overflow-on-fragmented-frame",
+					What:   fmt.Sprintf("runtime-host frame delivered in one-byte fragments: the CBOR stream decoder keeps one activation (%d bytes of stack) per short read (fxamacker/cbor stream.go Decode); with a %d-byte stack limit the model predicts death after %d reads and the process dies there with the unrecoverable %q; with the default 1 GB limit the computed depth is %d reads, below the 64 MiB a single frame may hold", frame, limit, d, msg, (usable(1000000000)-base)/frame),
+					Replay: map[string]any{"case": Case{Kind: "rhpstack"}}})
+			}
+		}
+		sum.Extra["predicted_death_depth"] = predicted
+		sum.DistinctNontrivial = wb.Total
+	}
+	sum.Extra["label"] = "search + depth model: the decoder library is not verified; its nesting behaviour is modelled and the prediction is tested"
+	wb.Close()
 	sum.Write(out)
 }
